@@ -11,11 +11,13 @@ Actions ==
   \cup UNION {{[op |-> "FClone", t |-> t, w |-> w, d |-> d] : w \in Held(t), d \in Dst} : t \in Thread}
   \cup UNION {{[op |-> "FWake", t |-> t, w |-> w] : w \in Held(t)} : t \in Thread}
   \cup UNION {{[op |-> "FWakeByRef", t |-> t, w |-> w] : w \in Held(t)} : t \in Thread}
+  \cup UNION {{[op |-> "FWakeBegin", t |-> t, w |-> w] : w \in Held(t)} : t \in Thread}
+  \cup {[op |-> "FWakeEnd", t |-> t] : t \in {u \in Thread : waking[u] # <<>>}}
   \cup UNION {{[op |-> "FDrop", t |-> t, w |-> w] : w \in Held(t)} : t \in Thread}
   \cup UNION {{[op |-> "Give", t |-> t, w |-> w, u |-> u] : w \in Held(t), u \in Thread \ {t}} : t \in Thread}
 
 Next == \E e \in Actions : Do(e)
 Spec == Init /\ [][Next]_vars
 (* the wake counter only grows: keep it out of the fingerprint *)
-View == <<ocount, cur, inPoll, rec, fw, touched, seen>>
+View == <<ocount, cur, inPoll, rec, fw, touched, waking, seen>>
 =============================================================================
